@@ -3,6 +3,7 @@ mutating histories, for pre-set status bytes, with clean unmount, drop, and aban
 import vlib, sessions
 from props import sess_common as sc
 from props import csess_corr
+from props import cfsinfo_corr
 
 PROP_FILES = ["Props/C12.v"]
 
@@ -136,3 +137,5 @@ def run(rep, tier, seed):
     # C12_vol_unmount_restores): create ; calls ; flush / drop ; remove sessions mounted with status byte 0 / 1 / 2 / 3 / 4 / 0x84 /
     # 0xFC / 0xFF - the WHOLE device, status byte included and unmasked, against the extracted mounted operations after every call
     csess_corr.stream(rep, tier, vlib.Rng(seed * 6151 + 12), "C12", n=12 if tier == "quick" else 200)
+    # the FS-info sector and the FAT32 status byte inside the image model (Model/VolFsInfo.v) against the library on FAT32 devices
+    cfsinfo_corr.stream(rep, tier, vlib.Rng(seed * 3989 + 1212), "C12", n=10 if tier == "quick" else 280)
